@@ -7,6 +7,8 @@ def _nontrivial(op, out):
     toks = op.split()
     if toks[0] in ("and", "or"):
         return "n" in toks[2:] or any(t.startswith("E") for t in toks[2:])
+    if toks[0] == "lcmp":
+        return "n" in toks[4:] or out.endswith("| n")
     if toks[0] in ("treeall", "ltreeall"):
         return True          # every line runs all 3^k assignments, NULL included
     return " n" in op or out.startswith("err") or out == "n"
@@ -19,7 +21,8 @@ PROP = dict(
                        "Octo.C11.or_error_reached", "Octo.C11.strict_null", "Octo.C11.nullcheck_complete",
                        "Octo.C11.strict_null_welltyped", "Octo.C11.table_strict_null", "Octo.C11.comparisons_strict",
                        "Octo.C11.table_strict_except_null_handlers", "Octo.C11.is_null_never_null",
-                       "Octo.C11.den_sound", "Octo.C11.tree_kleene", "Octo.C11.filter_spec", "Octo.C11.filter_kleene", "Octo.C11.typecheckU_sound", "Octo.C11.sql_tree_kleene",
+                       "Octo.C11.den_sound", "Octo.C11.tree_kleene", "Octo.C11.filter_spec", "Octo.C11.filter_kleene", "Octo.C11.typecheckU_sound", "Octo.C11.sql_tree_kleene", "Octo.C11.cmp_typed_null",
+                       "Octo.C11.cmp_typed_value", "Octo.C11.call_error_reached",
                        "Octo.C11.C11_full"],
     nontrivial=_nontrivial,
     rule="ops: `and`/`or` over every operand list in {TRUE,FALSE,NULL}^k (k<=5 quick, k<=7 thorough) and over "
@@ -30,7 +33,8 @@ PROP = dict(
          "functions.FunctionMap() with NULL in each argument position (nullable type, NULL type, all-nullable, and the "
          "ill-typed variant for modelled bodies); `ltreeall`: logical.Expression trees (all of depth <=2 over c0,c1,TRUE,"
          "FALSE,NULL; sampled to depth 4/7) typed by the REAL logical typechecker, the assigned types printed and "
-         "compared, evaluated on every record conforming to the column types; `filter`: nodes.Filter over random changelogs (retractions, "
+         "compared, evaluated on every record conforming to the column types; `lcmp`: the six comparisons over every "
+         "combination of Int / NULL|Int / NULL columns and literals through the real typechecker; `filter`: nodes.Filter over random changelogs (retractions, "
          "watermarks, source errors). Built as real physical.Expression -> Materialize -> Evaluate. non-trivial = "
          "NULL or an error takes part in the line",
     exhaustive=dict(quick=True, thorough=True),
